@@ -17,7 +17,7 @@ git -C $wt apply $patch
 (cd $wt/tests && go test -vet=off -count=1 ./... 2>&1 | tail -1)
 for c in "$@"; do
   git -C /repo apply $patch || { echo "apply to /repo failed"; exit 5; }
-  out=$(timeout 1500 /verif/bin/verif check $c 2>&1); rc=$?
+  out=$(timeout 1500 ${VERIF_BIN:-/verif/bin/verif} check $c 2>&1); rc=$?
   git -C /repo checkout -- . ; git -C /repo clean -fdq
   echo "-- check $c exit=$rc"
   echo "$out" | grep -E "^VIOLATION|^  class|^KNOWN-FINDING|^C[0-9]+ (quick|thorough)" | cut -c1-400 | head -12
